@@ -64,8 +64,8 @@ CLAIMED = {
         "check) leaves its nesting flag as it found it on EVERY exit - normal, early return, exception - so a later chain of the same parse is still recognised as outermost; _maybe_wrap_stmt_value gives a standalone bare-command / ![] statement the raise check exactly once (captured forms and "
         "values the chain pass already wrapped are left alone). Enum (complete): the @error_raise/@error_ignore rows of the "
         "real alias table. Bounded stand-in (not counted as proved): the real AST wrapper + runtime decision executed on every chain shape "
-        "of up to 4 (thorough: 5) commands against reference short-circuit semantics.",
-   note="Unverified: that the parser produces BoolOps/helper calls for &&/|| and for text that is / is not valid Python; that a failing "
+        "of up to 4 (thorough: 5) commands against reference short-circuit semantics; real ![..] / !(..) / $(..) / bare operands x exit 0 / 3 x output yes / no x 4 operators on real /bin/sh children.",
+   note="KNOWN FINDING (recorded): a `$(cmd)` operand decides a chain by whether the command wrote output, not by its exit code ($() yields a string). Unverified: that the parser produces BoolOps/helper calls for &&/|| and for text that is / is not valid Python; that a failing "
         "operand really reports a non-zero code (process machinery, C06/C09); main_xonsh exit-status selection; callable raise_subproc_error. "
         "Trusted: pyvc engine + models + z3/cvc5.",
    design="§3 C05"),
